@@ -671,6 +671,9 @@ func r9_2(c *Ctx, enc *ssa.Function, alphabet string, alphaIdx *ssa.Index) {
 		// folded: for sample values of n the code in front of the digit loop is evaluated as constants; the value that
 		// enters the loop in the masked variable must be (|n| << 1) | sign
 		signOK = signConversionFolds(enc, and)
+		if signOK {
+			c.info("sign in the least significant bit (decided on samples)", posOf(and, enc), "the sign conversion is not in the recognised form; the code in front of the digit loop was evaluated for 13 sample values of n and the value entering the loop equals (|n| << 1) | sign for each — weaker than the shape rule, which covers every n")
+		}
 	}
 	c.check(signOK, "sign in the least significant bit", posOf(or1, enc), "(−n << 1) | 1 for negative n, n << 1 otherwise", "the sign is not encoded as the least significant bit of the first group ((-n<<1)|1 for n<0, n<<1 otherwise)")
 	// termination: loop exits when the remainder is zero
